@@ -478,7 +478,7 @@ func main() {
 			"a far future time is expected to show the live state (tran.go ReadTran.Asof)",
 			"reference model verif/model/dbmodel for the contents of every state",
 		},
-		QuickBudget: 80, ThoroughBudget: 900,
+		QuickBudget: 70, ThoroughBudget: 900,
 		Procs: 16,
 		Run:   run, Replay: replay,
 	})
